@@ -16,6 +16,7 @@
 #include <xercesc/framework/MemoryManager.hpp>
 
 #include <cstdlib>
+#include <cstdint>
 #include <iostream>
 #include <memory>
 #include <sstream>
@@ -133,6 +134,17 @@ struct CachePair
     explicit CachePair(size_t maxSize = XalanDOMStringCache::eDefaultMaximumSize) :
         x(new XalanDOMStringCache(g_mm, XalanSize_t(maxSize))), tag(0) { for (int i = 0; i < 8; ++i) slot[i] = 0; }
 };
+
+// a returned iterator as an offset from the string's current begin(), by address comparison only
+static std::string retOff(const XalanDOMString& x, XalanDOMString::const_iterator it, long stdOff, bool& bad)
+{
+    const uintptr_t b = reinterpret_cast<uintptr_t>(&*x.begin()) , p = reinterpret_cast<uintptr_t>(&*it);
+    const uintptr_t e = b + (x.length() + 1) * sizeof(XalanDOMChar);
+    std::ostringstream o;
+    if (p < b || p > e || (p - b) % sizeof(XalanDOMChar) != 0) { o << "ret=dangling "; bad = true; }
+    else { const long off = long((p - b) / sizeof(XalanDOMChar)); o << "ret=" << off << " "; if (off != stdOff) bad = true; }
+    return o.str();
+}
 
 static bool units(const std::string& t, std::vector<XalanDOMChar>& out)
 {
@@ -362,10 +374,13 @@ int main()
             size_t a = 0, b = 0, c = 0, d = 0;
             bool ok = true;
             const XalanDOMChar nul = 0;
+            bool refbad = false;   // a member that returns *this (or its argument) must return that very object
+            std::string retpre;    // a returned iterator, as an offset
+#define REF(expr) do { const XalanDOMString& rr_ = (expr); if (&rr_ != p.x.get()) refbad = true; } while (0)
             if (op == "new") { p.x.reset(new XalanDOMString(g_mm)); p.s.clear(); }
             else if (op == "app" && t.size() == 4 && units(t[3], u))
             {
-                p.x->append(u.empty() ? &nul : &u[0], u.size());
+                REF(p.x->append(u.empty() ? &nul : &u[0], u.size()));
                 p.s.append(u.begin(), u.end());
             }
             else if (op == "ctor" && t.size() == 4 && units(t[3], u))
@@ -411,24 +426,36 @@ int main()
                 p.x->append(*ss[a]->x, b, c);
                 p.s.append(ss[a]->s, b, c == XalanDOMString::npos ? std::u16string::npos : c);
             }
-            else if (op == "appn" && t.size() == 5 && num(t[3], a) && num(t[4], b)) { p.x->append(a, XalanDOMChar(b)); p.s.append(a, char16_t(b)); }
+            else if (op == "appn" && t.size() == 5 && num(t[3], a) && num(t[4], b)) { REF(p.x->append(a, XalanDOMChar(b))); p.s.append(a, char16_t(b)); }
             else if (op == "push" && t.size() == 4 && num(t[3], a)) { p.x->push_back(XalanDOMChar(a)); p.s.push_back(char16_t(a)); }
             else if (op == "ins" && t.size() == 5 && num(t[3], a) && units(t[4], u))
             {
-                p.x->insert(a, u.empty() ? &nul : &u[0], u.size());
+                REF(p.x->insert(a, u.empty() ? &nul : &u[0], u.size()));
                 p.s.insert(p.s.begin() + a, u.begin(), u.end());
             }
-            else if (op == "insn" && t.size() == 6 && num(t[3], a) && num(t[4], b) && num(t[5], c)) { p.x->insert(a, b, XalanDOMChar(c)); p.s.insert(a, b, char16_t(c)); }
+            else if (op == "insn" && t.size() == 6 && num(t[3], a) && num(t[4], b) && num(t[5], c)) { REF(p.x->insert(a, b, XalanDOMChar(c))); p.s.insert(a, b, char16_t(c)); }
             else if (op == "erase" && t.size() == 5 && num(t[3], a) && num(t[4], b))
             {
-                p.x->erase(a, b);
+                REF(p.x->erase(a, b));
                 p.s.erase(a, b == XalanDOMString::npos ? std::u16string::npos : b);
             }
-            else if (op == "eraseat" && t.size() == 4 && num(t[3], a)) { p.x->erase(p.x->begin() + a); p.s.erase(p.s.begin() + a); }
+            else if (op == "eraseat" && t.size() == 4 && num(t[3], a))
+            {
+                XalanDOMString::iterator r = p.x->erase(p.x->begin() + a);
+                std::u16string::iterator sr = p.s.erase(p.s.begin() + a);
+                retpre = retOff(*p.x, r, long(sr - p.s.begin()), refbad);
+            }
+            else if (op == "insat" && t.size() == 5 && num(t[3], a) && num(t[4], b))
+            {
+                XalanDOMString::iterator r = p.x->insert(p.x->begin() + a, XalanDOMChar(b));
+                std::u16string::iterator sr = p.s.insert(p.s.begin() + a, char16_t(b));
+                retpre = retOff(*p.x, r, long(sr - p.s.begin()), refbad);
+            }
             else if (op == "eraser" && t.size() == 5 && num(t[3], a) && num(t[4], b))
             {
-                p.x->erase(p.x->begin() + a, p.x->begin() + b);
-                p.s.erase(p.s.begin() + a, p.s.begin() + b);
+                XalanDOMString::iterator r = p.x->erase(p.x->begin() + a, p.x->begin() + b);
+                std::u16string::iterator sr = p.s.erase(p.s.begin() + a, p.s.begin() + b);
+                if (p.x->size() < (size_t(1) << 24)) retpre = retOff(*p.x, r, long(sr - p.s.begin()), refbad);
             }
             else if (op == "assignit" && t.size() == 6 && num(t[3], a) && a < ss.size() && a != id && num(t[4], b) && num(t[5], c))
             {
@@ -439,16 +466,16 @@ int main()
             else if (op == "resize" && t.size() == 5 && num(t[3], a) && num(t[4], b)) { p.x->resize(a, XalanDOMChar(b)); p.s.resize(a, char16_t(b)); }
             else if (op == "reserve" && t.size() == 4 && num(t[3], a)) { p.x->reserve(a); p.s.reserve(a); }
             else if (op == "assign" && t.size() == 4 && num(t[3], a) && a < ss.size()) { *p.x = *ss[a]->x; if (a != id) p.s = ss[a]->s; }
-            else if (op == "assignn" && t.size() == 5 && num(t[3], a) && num(t[4], b)) { p.x->assign(a, XalanDOMChar(b)); p.s.assign(a, char16_t(b)); }
+            else if (op == "assignn" && t.size() == 5 && num(t[3], a) && num(t[4], b)) { REF(p.x->assign(a, XalanDOMChar(b))); p.s.assign(a, char16_t(b)); }
             else if (op == "assignsub" && t.size() == 6 && num(t[3], a) && a < ss.size() && num(t[4], b) && num(t[5], c))
             {
                 std::u16string src = ss[a]->s;
-                p.x->assign(*ss[a]->x, b, c);
+                REF(p.x->assign(*ss[a]->x, b, c));
                 p.s.assign(src, b, c);
             }
             else if (op == "substr" && t.size() == 6 && num(t[3], a) && a < ss.size() && a != id && num(t[4], b) && num(t[5], c))
             {
-                ss[a]->x->substr(*p.x, b, c);
+                REF(ss[a]->x->substr(*p.x, b, c));
                 p.s = ss[a]->s.substr(b, c == XalanDOMString::npos ? std::u16string::npos : c);
             }
             else if (op == "swap" && t.size() == 4 && num(t[3], a) && a < ss.size())
@@ -459,7 +486,8 @@ int main()
             (void) d;
             if (!ok) { std::cout << "bad\n"; continue; }
             bool bad = false;
-            std::string out = show(p, bad);
+            std::string out = retpre + show(p, bad);
+            if (refbad && !bad) { out += " !std"; bad = true; }
             if (bad) poisoned = true;
             std::cout << out << "\n";
         }
